@@ -15,7 +15,6 @@ import (
 	"strings"
 	"time"
 
-	art "github.com/Clement-Jean/go-art"
 )
 
 func envU64(name string, def uint64) uint64 {
@@ -84,7 +83,7 @@ func addMap(dst, src map[string]int) {
 }
 
 func genOptsFor(tier, domain, arch string) genOpts {
-	return genOpts{tier: tier, domain: domain, bits32: arch == "386", lim: art.VerifMaxPrefixLen, churnBias: os.Getenv("VERIF_POINTS") != "", growBias: os.Getenv("VERIF_GCPERCENT") != "" || os.Getenv("VERIF_GROWBIAS") != ""}
+	return genOpts{tier: tier, domain: domain, bits32: arch == "386", lim: hookLim, churnBias: os.Getenv("VERIF_POINTS") != "", growBias: os.Getenv("VERIF_GCPERCENT") != "" || os.Getenv("VERIF_GROWBIAS") != ""}
 }
 
 func workerMain(args []string) int {
@@ -284,6 +283,13 @@ func workerMain(args []string) int {
 			// suspend one right before it, let the other run ahead through its own
 			// execution of the same statement (the window of a check-then-act)
 			tr.Points = append(tr.Points, pairedYields(pr, ex.racePointOcc, pr.Range(10, 40))...)
+			// bursts: suspend one goroutine at a statement and let ANOTHER one run several
+			// of its own steps before the first continues (a window that only closes after
+			// a sequence of foreign operations: pop-pop-push against a suspended pop, a
+			// refill against a suspended check, ...)
+			nb := len(tr.Points)
+			tr.Points = append(tr.Points, burstYields(pr, ex.racePointOcc, pr.Range(0, 8))...)
+			wo.Probes["burst_yields_planned"] += len(tr.Points) - nb
 			if jf != nil {
 				pj, _ := json.Marshal(tr.Points)
 				fmt.Fprintf(jf, "POINTS %d %s\n", i, pj)
@@ -513,6 +519,52 @@ func pairedYields(r *RNG, occ [][]pointOcc, want int) []PointAct {
 			off = 1
 		}
 		out = append(out, PointAct{G: a.g, Nth: a.ord + off, Act: "yield", To: b.step})
+	}
+	return out
+}
+
+// burstYields plans up to want yields that hand the baton to one foreign
+// goroutine for a run of 2..16 of its steps.
+func burstYields(r *RNG, occ [][]pointOcc, want int) []PointAct {
+	var out []PointAct
+	for try := 0; try < want*4 && len(out) < want && len(occ) > 0; try++ {
+		g := r.Intn(len(occ))
+		var distinct []int
+		for id := range occ[g] {
+			if occ[g][id].n > 0 {
+				distinct = append(distinct, id)
+			}
+		}
+		if len(distinct) == 0 {
+			continue
+		}
+		o := occ[g][distinct[r.Intn(len(distinct))]]
+		a := o.at[r.Intn(len(o.at))]
+		// the foreign goroutine: the owner of a step soon after a.step
+		h, left := int32(0), pick(r, []int{2, 2, 3, 4, 6, 8, 12, 16})
+		to := 0
+		for k := a.step + 1; k < len(raceOwnerOf); k++ {
+			w := raceOwnerOf[k]
+			if w == 0 || int(w) == g+1 {
+				continue
+			}
+			if h == 0 {
+				if r.Chance(1, 3) {
+					continue // not always the very next foreign goroutine
+				}
+				h = w
+			}
+			if w == h {
+				left--
+				to = k
+				if left == 0 {
+					break
+				}
+			}
+		}
+		if to > a.step {
+			out = append(out, PointAct{G: g + 1, Nth: a.ord, Act: "yield", To: to})
+		}
 	}
 	return out
 }
